@@ -209,7 +209,21 @@ func (e *Engine) execBinOp(fr *Frame, st *State, ins *ssa.BinOp) Val {
 		}
 		return intv(e.ctx.Define("shr", "Int", ite(sx(">=", y.T, num(int64(bits))), big, sx("div", x.T, sx("pow2", y.T)))))
 	case token.AND, token.OR, token.XOR, token.AND_NOT:
-		return intv(e.ctx.Define("bit", "Int", e.bitop(ins.Op, x.T, y.T, t)))
+		r := e.ctx.Define("bit", "Int", e.bitop(ins.Op, x.T, y.T, t))
+		if ins.Op == token.OR || ins.Op == token.XOR {
+			// (a << k) | b with 0 <= b < 2^k is a + b: sound for every a that is a multiple of 2^k
+			for _, p := range [][2]ssa.Value{{ins.X, ins.Y}, {ins.Y, ins.X}} {
+				if sh, ok := p[0].(*ssa.BinOp); ok && sh.Op == token.SHL {
+					if c, ok := sh.Y.(*ssa.Const); ok && c.Value != nil {
+						if k, ok := litVal(constIntTerm(c.Value)); ok && k > 0 && k < 64 {
+							a, b := e.val(fr, p[0]).T, e.val(fr, p[1]).T
+							e.ctx.Assume(implies(and(eq(sx("mod", a, pow2(int(k))), "0"), sx("<=", "0", b), sx("<", b, pow2(int(k))), sx("<=", "0", a)), eq(r, sx("+", a, b))))
+						}
+					}
+				}
+			}
+		}
+		return intv(r)
 	}
 	unsup("binop %s", ins.Op)
 	return Val{}
@@ -276,6 +290,20 @@ func (e *Engine) bitop(op token.Token, x, y string, t types.Type) string {
 		}
 	}
 	_ = kx
+	if yc && ky < 0 && signed {
+		// negative constant mask on a signed type: ky == ^m with m >= 0
+		m := uint64(^ky)
+		switch op {
+		case token.AND: // x & ^m == x &^ m
+			return sx("-", x, bitsum(x, m, false))
+		case token.OR: // x | ^m == ^(^x & m) == -1 - (bits of m clear in x)
+			return sx("-", "(- 1)", bitsum(x, m, true))
+		case token.XOR: // x ^ ^m == ^(x ^ m)
+			return sx("-", "(- 1)", sx("-", sx("+", x, bitsum(x, m, true)), bitsum(x, m, false)))
+		case token.AND_NOT: // x &^ ^m == x & m
+			return bitsum(x, m, false)
+		}
+	}
 	if bits <= 16 && !signed {
 		// expand bit by bit
 		var parts []string
